@@ -17,20 +17,20 @@ FUNCTIONS = ["xgcm.grid:Grid.cumsum", "xgcm.grid:Grid.cumint", "xgcm.grid:Grid.i
 BOUNDS = {
     "quick": {"N": [2, 3], "layouts": "all 16", "shifts": "all 8 + default", "rules": "per call (symbolic fill) and grid default",
               "extra_dims": "0-1, every interleaving", "axes": "1; 2 axes both orders (order independence, cumint/integrate with symbolic positive metrics)"},
-    "thorough": {"N": [2, 3, 4], "layouts": "all 16", "extra_dims": "0-2", "axes": "1, 2 and 3 axes in every order"},
+    "thorough": {"N": [2, 3, 4, 5, 6], "layouts": "all 16", "extra_dims": "0-2 (N>4: 0-1)", "axes": "1, 2 and 3 axes in every order"},
 }
-OUTSIDE = ["N > 4", "float rounding (sums are re-associated)", "NaN data (skipna)"]
+OUTSIDE = ["N > 6", "float rounding (sums are re-associated)", "NaN data (skipna)"]
 ASSUMPTIONS = ["input data finite", "metrics strictly positive"]
 
 
 def cases(tier):
     out = []
-    for N in ([2, 3] if tier == "quick" else [2, 3, 4]):
+    for N in ([2, 3] if tier == "quick" else [2, 3, 4, 5, 6]):
         for layout in layouts():
             if len(layout) == 1:
                 continue
             for gm in GMODES:
-                extras = [[], [["t", 2]]] if tier == "quick" else [[], [["t", 2]], [["t", 1], ["s", 2]]]
+                extras = [[], [["t", 2]]] if tier == "quick" else ([[], [["t", 2]], [["t", 1], ["s", 2]]] if N <= 4 else [[], [["t", 2]]])
                 for extra in extras:
                     for oi in range(len(interleavings(["x"], [e[0] for e in extra]))):
                         out.append(dict(kind="1ax", N=N, layout=list(layout), gmode=gm, extra=extra, order=oi))
@@ -38,7 +38,7 @@ def cases(tier):
             out.append(dict(kind="inverse", N=N, gmode=gm))
         for axorder in itertools.permutations(["X", "Y"] if tier == "quick" else ["X", "Y", "Z"]):
             for dord in (0, 1):
-                out.append(dict(kind="multi", N=N if N < 4 else 3, axorder=list(axorder), dord=dord))
+                out.append(dict(kind="multi", N=min(N, 3), axorder=list(axorder), dord=dord))
         for to in ("outer", "right", "left", "inner"):
             out.append(dict(kind="cumint", N=N, to=to))
     return out
